@@ -106,8 +106,8 @@ def is_exact_case(d):
 
 class Check(PropertyCheck):
     id = 'C04'
-    lean_targets = ['RegionsVerif.Props.C04', 'RegionsVerif.Props.C04Box']
-    namespaces = ['RegionsVerif.Props.C04']
+    lean_targets = ['RegionsVerif.Props.C04', 'RegionsVerif.Props.C04Box', 'RegionsVerif.Bridge.FormulasC04']
+    namespaces = ['RegionsVerif.Props.C04', 'RegionsVerif.Bridge.C04']
     rule = ('all pixel region classes incl. lines, points, text, annuli and compounds to depth 3 x all parameters and angles '
             'x alignments of the extremes with pixel edges (1/8 lattice with exact arithmetic, where the box must agree exactly; '
             'near-aligned extremes with inexact trigonometry are excepted per side). Non-trivial = the box has at least 2 pixels.')
@@ -115,6 +115,16 @@ class Check(PropertyCheck):
                    '(dyadic parameters, no trigonometry)',
                    'np.cos/np.sin/np.sqrt correct to a few ulp']
     validated_only = ['that the compiled mask kernels put no weight outside the box is C02/C03 territory; here: mask.bbox == region.bounding_box on the real code']
+
+    def translate(self):
+        # tie T: regenerate Gen/FormulasC04.lean from the current source (tools/py2lean.py)
+        import importlib.util, os
+        from .common import VERIF
+        spec = importlib.util.spec_from_file_location('py2lean', os.path.join(VERIF, 'tools', 'py2lean.py'))
+        mod = importlib.util.module_from_spec(spec)
+        spec.loader.exec_module(mod)
+        problems, _ = mod.main(['C04'])
+        return problems
 
     def generate(self, rng, tier):
         n = 1500 if tier == 'quick' else 60000
